@@ -16,7 +16,8 @@ Print Assumptions C12_total.
 
 (* For every set `pre` of pre-registered names (package-level declarations, import names - registered through the
    allocator itself, as ParseFile does) and every later request history `reqs` (variables, done-channels, error
-   variables, parameters, import aliases of all injectors and files of one invocation): the names handed out are
+   variables, parameters, import aliases of all injectors served by one pool - since fix abf9ec3 the injectors of one
+   source file, before it all files of one invocation; the statement covers either, being about every history): the names handed out are
    pairwise distinct and none is a keyword, a predeclared identifier or a pre-registered name. *)
 Theorem C12_fresh : forall pre reqs o0 st0 outs st1,
   run_auto (reserved_pool (code_predeclared ++ code_keywords)) pre = Some (o0, st0) ->
